@@ -355,6 +355,13 @@ ICU_ROUNDTRIP = ('Shift_JIS', 'EUC-JP', 'GB2312', 'Big5', 'EUC-KR', 'windows-125
                  'ISO-8859-11', 'KOI8-U', 'UTF-7', 'IBM500', 'IBM273', 'ISO-2022-JP', 'GB18030')
 
 
+# Code points for which the library's Unicode->page tables (Windows-1252, IBM037/1047/1140) carry one-way "best fit"
+# entries (full-width ASCII variants -> ASCII, D-stroke -> Eth, overline -> macron), as observed on 2026-09-22.  This is
+# NOT part of the reference (the reference says: unrepresentable); it only names the violation class, so that a
+# different silently-accepted character gets a different key.
+XERCES_ONE_WAY = frozenset(range(0xFF01, 0xFF5F)) | frozenset((0x0110, 0x203E))
+
+
 def py_table(codec):
     t = []
     for b in range(256):
